@@ -390,17 +390,28 @@ func encodeIntermediateState(stagerCompletion, restorerCompletion, oldestBlockKe
 	return buf
 }
 
-// retentionFloorWithMinAge returns min(standardFloor, minAgeFloor).
+// retentionFloorWithMinAge returns min(standardFloor, minAgeFloor), but never
+// less than the oldest block still retained: an earlier start of this migration
+// may have pruned block data below its cutoff and stopped before that cutoff was
+// persisted, so the blocks below it (and, beyond BlockHashLag, their headers) are
+// gone and must neither be read by the wallclock search nor end up in the keeper
+// window.
 // Precondition: pivot >= retainedBlocks.
 func (m *Migrator) retentionFloorWithMinAge(
 	database db.KeyValueStore,
 	pivot uint64,
 ) (uint64, error) {
-	standardFloor := pivot - m.retainedBlocks
+	oldestRetained, err := pruner.OldestRetainedBlock(database)
+	if err != nil && !errors.Is(err, db.ErrKeyNotFound) {
+		return 0, fmt.Errorf("getting oldest retained block: %w", err)
+	}
+	standardFloor := max(pivot-m.retainedBlocks, oldestRetained)
 	if m.minAge == 0 {
 		return standardFloor, nil
 	}
-	minAgeFloor, err := pruner.FindOldestBlockAtOrAfter(database, 0, pivot, time.Now().Add(-m.minAge))
+	minAgeFloor, err := pruner.FindOldestBlockAtOrAfter(
+		database, oldestRetained, pivot, time.Now().Add(-m.minAge),
+	)
 	if errors.Is(err, pruner.ErrNoBlockInWindow) {
 		// Deep catch-up: no block young enough; wallclock layer disabled.
 		return standardFloor, nil
